@@ -121,8 +121,9 @@ PROPS['C04'] = dict(
     assumptions=TRUST + ['completeness of Decode is judged by counting, using that PathToIndex is a bijection onto [0, bitmapSize) (C03, MC_BmIndex)'],
 )
 PROPS['C05'] = dict(
-    trace=TBM, mc=dict(quick=[mc('MC_BmIndex', 'MC_BmIndex_q.cfg', expect_min_distinct=25000)], thorough=[mc('MC_BmIndex', 'MC_BmIndex.cfg', expect_min_distinct=200000)]), need_kinds=['i2p'],
-    rule='a case is a height with a batch of indexes: EVERY index of every height <= 10 (thorough <= 13); for heights 5..30 the indexes 0..3, h-1..h+2, 2^k+d, 2^k+h+d, last-2^k+d, middle and last, plus batches of 300 random indexes; '
+    trace=TBM, mc=dict(quick=[mc('MC_BmIndex', 'MC_BmIndex_q.cfg', expect_min_distinct=25000)], thorough=[mc('MC_BmIndex', 'MC_BmIndex.cfg', expect_min_distinct=200000)]), need_kinds=['i2p', 'i2pscan'],
+    rule='i2pscan: the driver walks EVERY index of every height <= 24 (thorough: all heights 0..30, i.e. all 2^32-33 pairs) evaluating only the property\'s own round trip and well-formedness as an input SELECTOR; every disagreeing index (<= 40 per 2^22 chunk) and 7 agreeing ones per chunk go into an ordinary event judged by TLC; '
+         'i2p: a case is a height with a batch of indexes: EVERY index of every height <= 10 (thorough <= 13); for heights 5..30 the indexes 0..3, h-1..h+2, 2^k+d, 2^k+h+d, last-2^k+d, middle and last, plus batches of 300 random indexes; '
          'IndexToPath judged against the pre-order descent Bmtree!PathOfIndex and PathToIndex(full, result) = index; distinct = distinct (height, indexes), non-trivial = height >= 1',
     assumptions=TRUST,
 )
